@@ -576,16 +576,8 @@ func cdBuildTypes() {
 		})
 
 	// stored records (decode only)
-	for _, ver := range []int32{1, 2} {
-		ver := ver
-		cdTypes[fmt.Sprintf("storage.Peer:%d", ver)] = cdReaderDe(func(r *bytes.Reader) (any, error) {
-			return storage.VerifCodecReadPeer(r, ver)
-		})
-		// the same parser fed from a bytes.Buffer, as PeerRepository.Load does
-		cdTypes[fmt.Sprintf("storage.PeerBuf:%d", ver)] = cdBufferDe(func(b *bytes.Buffer) (any, error) {
-			return storage.VerifCodecReadPeer(b, ver)
-		})
-	}
+	// (the record parser readPeer is only reached through PeerRepository.Load: the overlay calls no internal reader
+	// directly, so that a change of an internal signature cannot break the harness build)
 	cdTypes["storage.Peers"] = cdStoreDe(storage.VerifCodecPeersPath(),
 		func(ctx context.Context, store *VStore) (any, int, error) {
 			repo := storage.NewPeerRepository(store)
